@@ -14,6 +14,7 @@ mod c14;
 mod c02;
 mod c13;
 mod c19;
+mod c11;
 
 fn main() {
     let args: Vec<String> = std::env::args().collect();
@@ -34,6 +35,7 @@ fn main() {
         "c02" => c02::main(rest),
         "c13" => c13::main(rest),
         "c19" => c19::main(rest),
+        "c11" => c11::main(rest),
         other => {
             eprintln!("unknown property {other}");
             std::process::exit(2);
